@@ -9,13 +9,14 @@ class CaseTimeout(BaseException):
 
 class Exc(object):
     """observable outcome 'the call raised': compared by exception type name only"""
-    __slots__ = ('name', 'msg')
+    __slots__ = ('name', 'msg', 'mro')
     def __init__(self, e):
         self.name = type(e).__name__
         self.msg = str(e)[:120]
+        self.mro = tuple(c.__name__ for c in type(e).__mro__)
     @classmethod
     def named(cls, name, msg=''):
-        e = cls.__new__(cls); e.name = name; e.msg = msg
+        e = cls.__new__(cls); e.name = name; e.msg = msg; e.mro = (name,)
         return e
     def __eq__(self, o):
         return isinstance(o, Exc) and o.name == self.name
@@ -36,7 +37,8 @@ def call(f, *a, **k):
         return Exc(e)
 
 def is_exc(x, *names):
-    return isinstance(x, Exc) and (not names or x.name in names)
+    """x is an exception outcome (of one of the named classes or a subclass of one)"""
+    return isinstance(x, Exc) and (not names or any(n in x.mro for n in names))
 
 def show(x, limit=200):
     """JSON-able short rendering of an observed value"""
